@@ -155,6 +155,35 @@ def run(ctx, rep):
     rep.ob("R03.2", "_unbox: tuples are rebuilt element-wise as exact tuples", okt,
            "tuple(self._unbox(item) for item in value)" if okt else "LABEL_TUPLE is not rebuilt element by element", fu.loc)
     K.share(ctx, rep, "c07", lambda o: o.rule == "R07.1" and "unknown labels" in o.key, "R03.2")
+    # a well-formed package is never refused half-way: by the time the receiver unboxes it the sender has already counted every
+    # by-reference member, so a refusal leaves those references counted at the owner with no proxy that would ever return them
+    for k in ("LABEL_VALUE", "LABEL_TUPLE", "LABEL_REMOTE_REF"):
+        rs_ = [n for n in um.raises(k) if n.ast.exc is not None]
+        rep.ob("R03.2", "_unbox: a package labelled %s is never refused" % k, not rs_,
+               "no raise statement can execute for this label" if not rs_ else
+               "`%s` can execute for a well-formed %s package (a depth/size/shape limit the sender does not know about): the "
+               "members the sender has already counted never become proxies and are never released" % (A.norm(rs_[0].ast)[:60], k),
+               ctx.loc(rs_[0]) if rs_ else fu.loc)
+    # what a LOCAL_REF resolves to is what the table of exported objects holds under that id - nothing else
+    lr = list(by_label.get(consts["LABEL_LOCAL_REF"], []))
+    # ... including returns inside exception handlers of that branch (a fallback after a failed lookup)
+    seen_lr = {n.id for n in um.nodes("LABEL_LOCAL_REF")}
+    only_lr = seen_lr - {n.id for kk in ("LABEL_VALUE", "LABEL_TUPLE", "LABEL_REMOTE_REF") for n in um.nodes(kk)}
+    work_lr = [n for n in um.nodes("LABEL_LOCAL_REF") if n.id in only_lr]
+    reached_lr = set(only_lr)
+    while work_lr:
+        x_ = work_lr.pop()
+        for t_, l_ in x_.succ:
+            if t_.id not in reached_lr and t_ is not gu.exit and t_ is not gu.excexit:
+                reached_lr.add(t_.id)
+                work_lr.append(t_)
+    lr += [n for n in gu.live if n.id in reached_lr and n.kind == "stmt" and isinstance(n.ast, ast.Return) and n not in lr]
+    other = [n for n in lr if not (isinstance(n.ast.value, ast.Subscript) and K.self_attr(n.ast.value.value, "_local_objects"))]
+    rep.floor("R03.3", "_unbox local-reference returns", len(lr), 1)
+    rep.ob("R03.3", "_unbox: a local reference resolves only through the connection's own table of exported objects", not other,
+           "return self._local_objects[value]" if not other else
+           "for LABEL_LOCAL_REF _unbox can also return `%s`: a peer that forges an identifier obtains an object this connection "
+           "never exported to it" % A.src(other[0].ast.value)[:70], ctx.loc(other[0]) if other else fu.loc)
 
     # ------------------------------------------------------------------ R03.3
     lret = [n for n in g.live if n.kind == "stmt" and isinstance(n.ast, ast.Return) and isinstance(n.ast.value, ast.Tuple)
